@@ -207,7 +207,7 @@ fn run_quad_case<Q: QuadApi>(rep: &mut Rep, spec: &QuadSpec, path: u8, o: &VecOp
 
 pub fn quad_cases(cfg: &Cfg, o: &VecOpts) -> Vec<Case> {
     let mut out = Vec::new();
-    let specs = thin(quad_specs(cfg.scale, cfg.tier, cfg.seed), cfg, 4, 1);
+    let specs = thin(quad_specs(cfg.scale, cfg.tier, cfg.seed), cfg, 2, 1);
     for (bi, block) in [256usize, 512].into_iter().enumerate() {
         for (j, spec) in specs.iter().enumerate() {
             let spec = spec.clone();
@@ -380,7 +380,7 @@ fn run_bin_case<B: BinApi>(rep: &mut Rep, spec: &BitSpec, path: u8, o: &VecOpts)
 
 pub fn bin_cases(cfg: &Cfg, o: &VecOpts) -> Vec<Case> {
     let mut out = Vec::new();
-    let specs = thin(bit_specs(cfg.scale, cfg.tier, cfg.seed), cfg, 4, 1);
+    let specs = thin(bit_specs(cfg.scale, cfg.tier, cfg.seed), cfg, 2, 1);
     for (ti, ty) in ["RSNarrow", "RSWide"].into_iter().enumerate() {
         for (j, spec) in specs.iter().enumerate() {
             let spec = spec.clone();
